@@ -30,13 +30,22 @@
    therefore the observable projection of a genuine trace of the system. *)
 From FunV Require Import Base.Tac.
 
-Inductive outcome := Ok | Err | Pan | Blk | BlkErr.
+Inductive outcome := Ok | Err | Pan | Blk | BlkErr | CtlStop | CtlSkip.
 (* Ok: returns nil; Err: returns an error; Pan: panics; Blk: blocks until its
-   context is cancelled, then returns nil; BlkErr: the same, then returns an error. *)
+   context is cancelled, then returns nil; BlkErr: the same, then returns an error.
+   CtlStop / CtlSkip: returns an error that is, or wraps, a value the iteration
+   machinery of package fun treats as a control signal: io.EOF, context.Canceled,
+   context.DeadlineExceeded (CtlStop: "stop iterating", never collected) or
+   fun.ErrIteratorSkip (CtlSkip: "skip this item", never collected).  For a service,
+   a group member and a cleanup function these are errors like any other; only
+   ProcessParallel (the worker pools) looks at them.  (ers.ErrCurrentOpAbort is an
+   ordinary error for all the code modelled here and is driven as Err.) *)
 Definition fails (o : outcome) : bool :=
-  match o with Err | Pan | BlkErr => true | _ => false end.
+  match o with Err | Pan | BlkErr | CtlStop | CtlSkip => true | _ => false end.
 Definition blocking (o : outcome) : bool :=
   match o with Blk | BlkErr => true | _ => false end.
+Definition is_ctl (o : outcome) : bool :=
+  match o with CtlStop | CtlSkip => true | _ => false end.
 
 Definition upd {A} (f : nat -> A) (i : nat) (v : A) : nat -> A :=
   fun j => if Nat.eqb j i then v else f j.
@@ -251,7 +260,9 @@ Definition future_adds (rest : list ev) : list nat :=
 
 Definition next (rest : list ev) (s : st) : option ev :=
   let alive := negb (cancelled s) || existsb (needed s rest) (queue s) in
-  match gstart s with
+  (* a starter goroutine for a service that its owner starts later in the log loses that race: its own
+     Start (which then reports "already started") is placed after the owner's *)
+  match filter (fun i => negb (is_idle (sv s i) && envstarts i rest)) (gstart s) with
   | i :: _ => Some (EGStart i)
   | [] =>
     match filter (fun i => is_finished (sv s i)) (gwait s) with
@@ -595,14 +606,17 @@ Section Step.
 Variable cf : conf.
 Variable oc : nat -> outcome.
 
-(* does the worker go back to its loop after job j ended? *)
+(* does the worker go back to its loop after job j ended?  (WorkerGroupConf.CanContinueOnError: an error that
+   is io.EOF or a context error stops the worker whatever ContinueOnError says; ErrIteratorSkip never does.
+   In the handler pool the processor hands every error to the observer and returns nil.) *)
 Definition continues (j : nat) : bool :=
   match oc j with
-  | Ok | Blk => true
+  | Ok | Blk | CtlSkip => true
   | Err | BlkErr => handler cf || coe cf
   | Pan => cop cf
+  | CtlStop => handler cf
   end.
-(* where job j's failure goes *)
+(* where job j's failure goes; a control-valued error of a job of the plain WorkerPool goes nowhere *)
 Definition to_wait (j : nat) : bool :=
   match oc j with
   | Err | BlkErr => negb (handler cf)
@@ -611,7 +625,7 @@ Definition to_wait (j : nat) : bool :=
   end.
 Definition to_handler (j : nat) : bool :=
   match oc j with
-  | Err | BlkErr => handler cf
+  | Err | BlkErr | CtlStop | CtlSkip => handler cf
   | _ => false
   end.
 
